@@ -141,6 +141,9 @@ class C04(PropCheck):
                 continue
             seen.add(tuple(levels))
             out.append({"k": "stack", "levels": levels, "qseed": rng.randrange(1 << 30), "hostile": len(out) % 5 == 0})
+        # the same under `python -O` (a child interpreter): nothing may depend on assert statements being executed
+        for levels in (["f"], ["f", "g", "f"], ["gl", "f"], ["f", "gl", "c"], ["gld", "f"]):
+            out.append({"k": "stack", "levels": levels, "qseed": rng.randrange(1 << 30), "optimized": True})
         # splits made by greenback (a Trio task with a portal), alone and with user-created greenlets nested inside
         for levels in (["gb"], ["f", "gb", "f"], ["gb", "gl", "f"], ["gb", "gl", "g"], ["gb", "f", "gl", "gl", "c"], ["gb", "gld", "f"],
                        ["gb", "glc", "f"], ["gl", "gb", "gl"]):
@@ -150,6 +153,27 @@ class C04(PropCheck):
         return out
 
     def run_real(self, case):
+        if case.get("optimized"):
+            # the same scenario in a child interpreter started with -O (assert statements are stripped)
+            import os
+            import subprocess
+            from ..core import REPO, VERIF
+
+            inner = {k: v for k, v in case.items() if k != "optimized" and not k.startswith("_")}
+            code = ("import json, sys\nfrom harness.props import c04\ncase = json.loads(sys.argv[1])\n"
+                    "r = c04.CHECK.run_real_inner(case)\n"
+                    "print('\\nRESULT ' + json.dumps({'real': r, 'probs': c04.CHECK._probs, 'queries': case.get('_queries'), 'segs': case.get('_segs')}))\n")
+            p = subprocess.run(["/venv/bin/python", "-O", "-c", code, json.dumps(inner)], stdout=subprocess.PIPE, stderr=subprocess.PIPE, text=True,
+                               env=dict(os.environ, PYTHONPATH=f"{REPO}:{VERIF}", STACKSCOPE_REPO=str(REPO)), timeout=300, cwd=str(VERIF))
+            line = [l for l in p.stdout.splitlines() if l.startswith("RESULT ")]
+            if not line:
+                self._probs = [f"python -O child exit {p.returncode}: {p.stderr[-300:]}"]
+                case["_queries"], case["_segs"] = [], []
+                return "child failed"
+            d = json.loads(line[-1][7:])
+            case["_queries"], case["_segs"] = d["queries"] or [], d["segs"] or []
+            self._probs = ["under python -O: " + x for x in d["probs"]]
+            return d["real"]
         if not case.get("hostile"):
             return self.run_real_inner(case)
         # environment: sys.modules holds an entry whose attribute access fails with something other than AttributeError (a module
